@@ -46,6 +46,7 @@ class Alphabet:
             "P6": (None, "m", {"a": x}, {"v": 1}),
             "P7": (t[2], "n", {"a": x + "\n" + y}, {"v": -1.5}),
             "P8": (t[2], "m", {"b": y}, {"v": 2.5, "w": 3}),
+            "P9": (t[2], "m", {}, {"v": 7}),                      # a second tag-less point (P4 has no tags either)
         }
         self._bind_update_fns()
 
